@@ -47,7 +47,25 @@ def rule_writer_reader_kinds(model: Model, rule_id: str = 'C05-R1') -> RuleResul
         produced = key if into == 'identity' else into
         r.sample({'row': key.split('.')[-1], 'writes': (produced or '?').split('.')[-1], 'reads': sorted(x.split('.')[-1] for x in row['allowed'])})
         if into == 'lambda':
-            raise AnalysisError(f"{loc}: serialiser of row {key} is an opaque lambda")
+            # a lambda that is just str / repr / identity is as good as the named function; anything else rewrites the value
+            call = row['node']
+            lam = call.args[4] if isinstance(call, ast.Call) and len(call.args) > 4 else next(
+                (k.value for k in getattr(call, 'keywords', []) if k.arg in ('into_data_f', 'into_data')), None)
+            simple = None
+            if isinstance(lam, ast.Lambda) and len(lam.args.args) == 1:
+                p_ = lam.args.args[0].arg
+                b_ = lam.body
+                if isinstance(b_, ast.Name) and b_.id == p_:
+                    simple = 'identity'
+                elif isinstance(b_, ast.Call) and isinstance(b_.func, ast.Name) and b_.func.id in ('str', 'repr') and len(b_.args) == 1 \
+                        and isinstance(b_.args[0], ast.Name) and b_.args[0].id == p_ and not b_.keywords:
+                    simple = 'builtins.str'
+            if simple is None:
+                r.fail('pane.converters._BASIC_CONVERTERS', f"row {key.split('.')[-1]} is written by {unparse(lam)[:70] if lam is not None else 'an opaque function'}", loc,
+                       "the scalar is not written as its own text form (str) but through a transformation: what is read back need not equal "
+                       "the value (Decimal.normalize() rounds to the context precision; formatting drops digits or exponents)")
+                continue
+            produced = key if simple == 'identity' else simple
         if produced not in row['allowed']:
             r.fail('pane.converters._BASIC_CONVERTERS', f"row {key.split('.')[-1]} writes {produced.split('.')[-1]}", loc,
                    f"into_data produces a {produced.split('.')[-1]} which the same converter refuses to read back")
